@@ -90,8 +90,9 @@ static std::string do_wsess(std::istringstream& is) {
 
 // object queue alone: one producer (n objects, then setFileSize(tellp)), one consumer (this thread) reading until null
 static std::string do_qsess(std::istringstream& is) {
-    Opts o; std::string tok; long cap = 1, n = 0, abortat = -1, presize = 0;
+    Opts o; std::string tok; long cap = 1, n = 0, abortat = -1, presize = 0, ctl = 0;
     while (is >> tok) { if (tok.rfind("cap=", 0) == 0) cap = atol(tok.c_str() + 4); else if (tok.rfind("n=", 0) == 0) n = atol(tok.c_str() + 2);
+        else if (tok.rfind("ctl=", 0) == 0) ctl = atol(tok.c_str() + 4);
         else if (tok.rfind("abortat=", 0) == 0) abortat = atol(tok.c_str() + 8); else if (tok.rfind("presize=", 0) == 0) presize = atol(tok.c_str() + 8); else parse_opt(tok, o); }
     vshim::configure(o.choices, o.policy, o.seed, getenv("VERIF_MAXSTEPS") ? atol(getenv("VERIF_MAXSTEPS")) : 400000);
     std::string got; bool nullseen = false; long cnt = 0;
@@ -101,17 +102,22 @@ static std::string do_qsess(std::istringstream& is) {
         for (long i = 0; i < n; i++) { CanMessage* m = new CanMessage; m->id = uint32_t(i + 1); made.push_back(m); }
         // presize=1: the number of objects is declared before the first one is written (a consumer asleep on the empty queue is woken
         // by that declaration and has to go back to sleep)
-        std::thread prod([&] { if (presize) q.setFileSize(uint32_t(n)); for (long i = 0; i < n; i++) q.write(made[size_t(i)]); if (!presize) q.setFileSize(q.tellp()); });
+        // ctl=1: the end of the stream is never declared; a third thread calls abort() at some point of the schedule.  Every waiter has
+        // to be released: the consumer gets a prefix of the objects, then null.  (Objects still queued belong to the queue.)
+        std::thread prod([&] { if (presize) q.setFileSize(uint32_t(n)); for (long i = 0; i < n; i++) q.write(made[size_t(i)]); if (!presize && !ctl) q.setFileSize(q.tellp()); });
+        std::thread ctlth; if (ctl) ctlth = std::thread([&] { q.abort(); });
+        std::vector<ObjectHeaderBase*> consumed;
         for (;;) {
             if (abortat >= 0 && cnt == abortat) { q.abort(); }
             ObjectHeaderBase* ob = q.read();
             if (!ob) { nullseen = true; break; }
             long idx = -1; for (size_t k = 0; k < made.size(); k++) if (made[k] == ob) idx = long(k) + 1;
-            got += (got.empty() ? "" : ",") + std::to_string(idx); cnt++;
+            got += (got.empty() ? "" : ",") + std::to_string(idx); cnt++; consumed.push_back(ob);
             if (cnt > n + 2) break;
         }
         prod.join();
-        for (auto* m : made) delete m;
+        if (ctl) { ctlth.join(); for (auto* m : consumed) delete m; }
+        else for (auto* m : made) delete m;
     }
     return "sched outcome=done steps=" + std::to_string(vshim::steps()) + " got=" + (got.empty() ? "-" : got) + " null=" + (nullseen ? "1" : "0") + " trace=" + vshim::trace();
 }
@@ -119,10 +125,10 @@ static std::string do_qsess(std::istringstream& is) {
 // in-memory stream alone: one producer appending containers of the given sizes (bytes 0,1,2,... mod 251), then
 // setFileSize(tellp); the consumer (this thread) issues the given reads and calls dropOldData after each
 static std::string do_usess(std::istringstream& is) {
-    Opts o; std::string tok; long buf = 8; std::vector<long> conts, reads;
+    Opts o; std::string tok; long buf = 8, ctl = 0; std::vector<long> conts, reads;
     auto lst = [](const std::string& v, std::vector<long>& out) { std::stringstream ss(v); std::string x; while (std::getline(ss, x, ',')) if (!x.empty()) out.push_back(atol(x.c_str())); };
     while (is >> tok) { if (tok.rfind("buf=", 0) == 0) buf = atol(tok.c_str() + 4); else if (tok.rfind("conts=", 0) == 0) lst(tok.substr(6), conts);
-        else if (tok.rfind("reads=", 0) == 0) lst(tok.substr(6), reads); else parse_opt(tok, o); }
+        else if (tok.rfind("reads=", 0) == 0) lst(tok.substr(6), reads); else if (tok.rfind("ctl=", 0) == 0) ctl = atol(tok.c_str() + 4); else parse_opt(tok, o); }
     vshim::configure(o.choices, o.policy, o.seed, getenv("VERIF_MAXSTEPS") ? atol(getenv("VERIF_MAXSTEPS")) : 400000);
     std::string out;
     {
@@ -131,8 +137,10 @@ static std::string do_usess(std::istringstream& is) {
             unsigned v = 0;
             for (long c : conts) { auto lc = std::make_shared<LogContainer>(); lc->uncompressedFile.resize(size_t(c)); for (auto& b : lc->uncompressedFile) b = char(v++ % 251);
                 lc->uncompressedFileSize = uint32_t(c); u.write(lc); }
-            u.setFileSize(u.tellp());
+            if (!ctl) u.setFileSize(u.tellp());
         });
+        // ctl=1: the end is never declared, a third thread calls abort() somewhere in the schedule: both waiters have to be released
+        std::thread ctlth; if (ctl) ctlth = std::thread([&] { u.abort(); });
         for (long r : reads) {
             std::vector<uint8_t> b(size_t(r) + 1, 0xCD);
             u.read(reinterpret_cast<char*>(b.data()), r);
@@ -143,6 +151,7 @@ static std::string do_usess(std::istringstream& is) {
         }
         u.abort();
         prod.join();
+        if (ctl) ctlth.join();
     }
     return "sched outcome=done steps=" + std::to_string(vshim::steps()) + " reads=" + (out.empty() ? "-" : out) + " trace=" + vshim::trace();
 }
